@@ -7,6 +7,8 @@ must-fail / don't-care bands.
 from __future__ import annotations
 
 import itertools
+
+import sympy as sp
 from typing import Any, Optional
 
 from ..harness import Run, pmap, rotate, short
@@ -134,6 +136,13 @@ def scalar_cases(v: complex) -> list[tuple[str, str, str]]:
     return out
 
 
+EXPONENTS = [("-1", sp.Integer(-1)), ("-1/2", sp.Rational(-1, 2)), ("-0.5", sp.Float(-0.5)),
+    ("0", sp.Integer(0)), ("0.5", sp.Float(0.5)), ("1/2", sp.Rational(1, 2)), ("1", sp.Integer(1)),
+    ("1.5", sp.Float(1.5)), ("3/2", sp.Rational(3, 2)), ("2", sp.Integer(2)), ("2.0", sp.Float(2.0)),
+    ("2.5", sp.Float(2.5)), ("5/2", sp.Rational(5, 2)), ("3", sp.Integer(3)), ("1/3", sp.Rational(1,
+    3)), ("0.3", sp.Float(0.3))]
+
+
 def dimension_cases() -> list[tuple[str, str, str]]:
     from sympy.physics import units as U
     from symplyphysics import Quantity
@@ -162,6 +171,28 @@ def dimension_cases() -> list[tuple[str, str, str]]:
                     out.append((f"dim-inequivalent:{fname}:{tag}:{v}", FAIL, judge(FAIL, got)))
                     # zero values as well: 0 m is not 0 s for the oracle?  zero matches any
                     # dimension in the gate, so this case is left open
+        # exponent grid: the same base raised to every pair of exponents (exact and floating
+        # spellings); numerically different exponents are inequivalent dimensions, identical
+        # spellings are the same dimension; the same number written once exactly and once as a
+        # float (2 vs 2.0) is left open (sympy keeps them apart, the property does not say)
+        if v == -2.5:
+            continue
+        for bname, mk in (("meter", lambda e: U.meter**e), ("ampere*hertz", lambda e: U.ampere *
+            U.hertz**e), ("joule", lambda e: U.joule**e)):
+            for (na, ea), (nb, eb) in itertools.product(EXPONENTS, repeat=2):
+                same_number = sp.Rational(str(ea)) == sp.Rational(str(eb)) if (ea.is_Float or
+                    eb.is_Float) else ea == eb
+                if same_number and (ea.is_Float != eb.is_Float):
+                    continue
+                want = PASS if same_number else FAIL
+                for fname, fn in (("assert", assert_equal), ("quantities", approx_equal_quantities)):
+                    try:
+                        qa, qb = Quantity(v * mk(ea)), Quantity(v * mk(eb))
+                    except Exception:
+                        continue
+                    got = outcome(lambda: fn(qa, qb))
+                    out.append((f"dim-exponent:{fname}:{bname}**{na}|{nb}:{v}", want, judge(want,
+                        got)))
         # bare numbers
         q = Quantity(v * U.meter)
         got = outcome(lambda: assert_equal(q, v))
